@@ -99,11 +99,25 @@ def grammar(tier, rnd, limits=(None,), max_fields=2):
             out.append(dict(cond, since=-C.T0, **({"limit": lim} if lim is not None else {})))
             out.append(dict(cond, since=-C.T0, until=31, **({"limit": lim} if lim is not None else {})))
             out.append(dict(cond, until=-C.T0, **({"limit": lim} if lim is not None else {})))
+    # wide author x kind products beside a multi-value tag condition: the LMDB planner then walks the author+kind index first and
+    # the tag index second, restricted to the candidates (events carrying two of the requested values are met twice there)
+    out += wide_filters(limits)
     # a seeded sample of the rest of the product (3 and 4 fields)
     rest = [c for c in itertools.product(ids, authors, kinds, tags) if sum(x is not None for x in c) > max_fields]
     rnd.shuffle(rest)
     for c in rest[: (150 if tier == "quick" else 1500)]:
         out.append(mk_filter(*c, rnd.choice(times), rnd.choice(limits)))
+    return out
+
+
+def wide_filters(limits=(None,)):
+    out = []
+    kinds6 = [1, 2, 5, 7, 10000, 30000]
+    for authors in (["C", "A"], ["A", "B"], ["A", "B", "C"]):
+        for tags in ({"t": ["a", "ab"]}, {"t": ["a", "abc"]}, {"t": ["ab", "a", "abc"]}, {"e": ["q1", "q2"]}, {"t": ["a", "ab"], "p": ["A", "B"]}):
+            for tm in ({}, {"since": 19}, {"until": 31}):
+                for lim in limits:
+                    out.append(mk_filter(None, authors, kinds6, tags, tm, lim))
     return out
 
 
